@@ -93,6 +93,10 @@ def generate(rng, tier):
     elif files:
         f = rng.choice(files)
         edit = {"op": "write", "path": f, "c": gen.unique_content(rng, 7), "fault": "content_edit", "tag": "content"}
+        if rng.random() < 0.3:
+            # an edit that no stat() can see: same inode, same size, modification time put back (cp -p onto the file)
+            edit = {"op": "rewrite", "path": f, "seed": rng.getrandbits(30), "keep_mtime": True, "fault": "content_edit_stat_invisible",
+                    "tag": "content"}
     if edit:
         ops.append(edit)
         fmts2 = fmts
@@ -104,6 +108,8 @@ def generate(rng, tier):
         ops.append(scen.cmd("create", "@R", *gen.fmt_args(fmts2)))
         co2 = ["verify", "@R", "-dh", "-co"] + (["-h", rng.choice(fmts2)] if rng.random() < 0.6 else [])
         ops.append(scen.cmd(*co2))
+    if rng.random() < 0.2:
+        env["process_model"] = "session"  # one long-lived process runs all commands (library use)
     return {"world": env, "ops": ops}
 
 
